@@ -7,10 +7,6 @@
      init_flagsb       the transitions of pseudo-states carry the flag LargeMicroStep::init gives them
      root_plainb       <scxml> has no <initial> child element (the schema gives it none; the engine would run its
                        transition's content, Appendix D does not)
-     root_singleb      the 'initial' attribute of <scxml> names one state (Spec.spec_run enters the targets of the
-                       document's initial transition one by one, descendants AND ancestors of each in turn;
-                       Appendix D first adds the descendants of all targets: with several targets Spec.v is not
-                       Appendix D, see the report)
    Definitions and proofs. *)
 From V Require Import Base NameMatch Chart Exec Large LargeLemmas Spec Legal SetLemmas LegalAbstract LegalLarge WfCore
   SelectConform SelectConformLemmas SelectConformRoot MicroConform
@@ -51,7 +47,6 @@ Definition init_flagsb : bool :=
                     else true) (seq 0 n).
 
 Definition root_plainb : bool := forallb properb (fs_completion (st c 0)).
-Definition root_singleb : bool := match fs_completion (st c 0) with [_] => true | _ => false end.
 
 Hypothesis W : WFH c.
 
